@@ -36,7 +36,8 @@ open Pm Pm.Daemon Pm.Client Pm.Daemon.ClientPf
         configured node list (`nodes`) or on a device's plug list (`device`); never `hostlist_create` (F1 is repaired)
         (`SortRes.Died` = the assert, or — in the logic only — the iteration bound of the sort mirror running out);
     (b) the line was answered at once: the client's output grew by `render items` where `items` is zero or more
-        informational lines (301, 304, 306, 307), then exactly ONE terminal line (101, 103, 104, 105, 201, 205, 208, 209, 213),
+        informational lines (301, 304, 306, 307), then exactly ONE terminal line (101, 103, 104, 105, 201, 203, 205, 208,
+        209, 213; 203 = the line is `CP_LINEMAX` bytes or longer, see `C06_too_long`),
         then the prompt exactly when the code is neither 208 nor 101 and the client has not quit; the bytes sit in `to`
         (or, for `quit`, went through `_handle_write`: see `QuitFlush`); the command in progress is untouched;
     (c) a command was installed with `pending > 0`: possible only when none was in progress; nothing is written yet (the
@@ -46,7 +47,7 @@ theorem C04_one_reply_per_line (w : W) (c : Cli) (line : Pm.Client.Bytes) :
         ((sortHL w.cfg.nodes).Died ∨ ∃ nd ∈ w.devs, (sortHL (devHosts nd.2)).Died)) ∨
     (∃ infos code text,
         (∀ i ∈ infos, i.lineIn [301, 304, 306, 307] = true) ∧
-        code ∈ [101, 103, 104, 105, 201, 205, 208, 209, 213] ∧
+        code ∈ [101, 103, 104, 105, 201, 203, 205, 208, 209, 213] ∧
         (∃ items, items = infos ++ [Item.line code text] ++
               (if promptAfter (parseLine w c line).2.quit code then [Item.prompt] else []) ∧
           outOf (parseLine w c line).1 (parseLine w c line).2 = outOf w c ++ render items ∧
@@ -85,11 +86,23 @@ example : written (parseLine Ex.world Ex.idle (bstr "quit\r\n")).1.sys 1000 = re
 example : (parseLine Ex.world Ex.idle (bstr "on t1\r\n")).2.cmd.map (·.pending) = some 1 ∧
     (parseLine Ex.world Ex.idle (bstr "on t1\r\n")).2.toBuf = [] := by decide +kernel
 
-/-- C11 one-command rule: while a command is in progress, a request line — any bytes — is answered
-    `208 Command in progress` without a prompt, and nothing else changes, neither in the client nor in the world -/
-theorem C04_busy_is_208 (w : W) (c : Cli) (line : Pm.Client.Bytes) (h : c.cmd.isSome = true) :
+/-- C11 one-command rule: while a command is in progress, a request line — any bytes, fewer than `CP_LINEMAX` (131072)
+    of them once stripped: `_parse_input` tests the length first — is answered `208 Command in progress` without a
+    prompt, and nothing else changes, neither in the client nor in the world -/
+theorem C04_busy_is_208 (w : W) (c : Cli) (line : Pm.Client.Bytes) (h : c.cmd.isSome = true) (hs : ¬ TooLong line) :
     parseLine w c line = (w, put c (render [Item.line 208 (bstr "Command in progress")])) :=
-  parseLine_busy w c line h
+  parseLine_busy w c line h hs
+
+/-- … and a longer one is answered `203 Command too long` followed by the prompt (the branch falls through to the end of
+    `_parse_input`, unlike the 208 branch) — one terminal line all the same, and nothing else changes either.  Holds
+    whatever the client's state, with or without a command in progress. -/
+theorem C04_too_long_is_203 (w : W) (c : Cli) (line : Pm.Client.Bytes) (h : TooLong line) :
+    parseLine w c line =
+      (w, put c (render [Item.line 203 (bstr "Command too long")] ++ (if c.quit then [] else prompt))) :=
+  parseLine_tooLong w c line h
+
+theorem C04_tooLong_def (line : Pm.Client.Bytes) :
+    TooLong line ↔ (stripWs (line.takeWhile (· != 0))).length ≥ 131072 := Iff.rfl
 
 example : (parseLine Ex.busyWorld Ex.busy (bstr "off t1\r\n")).2.toBuf = bstr "208 Command in progress\r\n" := by decide +kernel
 
